@@ -651,6 +651,9 @@ def gen_affine(rng, allow_k3=False, allow_occ=False, two_red_p=0.2):
         o_ranks.append(d["q"]); o_acc.append(d["q"].lower())
         i_ranks.append(d["w"])
         terms = [_iterm(d["a"], d["q"].lower())]
+        if d["a"] == 2 and rng.random() < 0.25:
+            # the same stride written with a repeated index variable: I[q + q + s]
+            terms = [d["q"].lower(), d["q"].lower()]
         if d["s"]:
             terms.append(_iterm(d["b"], d["s"].lower()))
             f_ranks.append(d["s"]); f_acc.append(d["s"].lower())
